@@ -3,17 +3,30 @@
 import json, sys
 pid = sys.argv[1]
 n = sys.argv[2] if len(sys.argv) > 2 else "3"
+WT = sys.argv[3] if len(sys.argv) > 3 else "/tmp/wt"
+OUT = sys.argv[4] if len(sys.argv) > 4 else "/tmp/wt_out"
+import glob, os
+avoid = []
+for d in sorted(glob.glob(f"/verif/seeded/{pid}-m*")):
+    try:
+        first = [l for l in open(os.path.join(d, "notes.md")).read().splitlines() if l.strip()][0]
+        avoid.append(first.lstrip("# ").strip())
+    except Exception:
+        pass
+AVOID = ""
+if len(sys.argv) > 3 and avoid:
+    AVOID = "\n\nAn earlier round already produced the following changes for this property; do NOT repeat them or close variants of them - look for different mechanisms, different code locations and different triggering conditions (deeper call paths, other modules that feed this behaviour, configuration interplay, caching/state carried between calls, error paths):\n" + "\n".join("  - " + a for a in avoid)
 p = [json.loads(l) for l in open('/verif/properties.jsonl') if l.strip()]
 p = [x for x in p if x['id'] == pid][0]
 print(f"""You are helping to evaluate a verification effort for the Python project Instagram/MonkeyType (records runtime types via sys.setprofile, shrinks/rewrites them, stores them in SQLite, emits/applies type stubs).
 
-Your own private git worktree of the project is at /tmp/wt/{pid} (a detached checkout of the pinned commit). Work ONLY inside /tmp/wt/{pid} and /tmp/wt_out/{pid}. Do NOT read, list or touch anything under /verif or /repo (your work must be independent of what exists there). There is no network.
+Your own private git worktree of the project is at {WT}/{pid} (a detached checkout of the pinned commit). Work ONLY inside {WT}/{pid} and {OUT}/{pid}. Do NOT read, list or touch anything under /verif or /repo (your work must be independent of what exists there). There is no network.
 
 How to run things:
   * interpreter: /venv/bin/python (CPython 3.12). Always run with the worktree first on the path, e.g.
-      cd /tmp/wt/{pid} && PYTHONPATH=/tmp/wt/{pid} /venv/bin/python -W ignore your_demo.py
-    and make your demo assert that `monkeytype.__file__` starts with /tmp/wt/{pid}/ (an editable install of another checkout exists in /venv; PYTHONPATH takes precedence over it).
-  * the project's test-suite: cd /tmp/wt/{pid} && PYTHONPATH=/tmp/wt/{pid} /venv/bin/python -m pytest -q -p no:cacheprovider 2>&1 | tail -15
+      cd {WT}/{pid} && PYTHONPATH={WT}/{pid} /venv/bin/python -W ignore your_demo.py
+    and make your demo assert that `monkeytype.__file__` starts with {WT}/{pid}/ (an editable install of another checkout exists in /venv; PYTHONPATH takes precedence over it).
+  * the project's test-suite: cd {WT}/{pid} && PYTHONPATH={WT}/{pid} /venv/bin/python -m pytest -q -p no:cacheprovider 2>&1 | tail -15
     On the unmodified checkout exactly 1 test fails (known, pre-existing, ignore it): tests/test_config.py::TestDefaultCodeFilter::test_excludes_site_packages. All other tests pass (summary line: "1 failed, 378 passed, 2 skipped, 1 xpassed"). (Compare the list of failing tests, printed at the end of the run.)
 
 The property under study (it is supposed to hold for the project):
@@ -29,10 +42,12 @@ YOUR TASK: produce {n} different, independent, REALISTIC changes ("mutants") to 
   (2) BREAKS the property above (makes MonkeyType violate the statement for at least one input / history / configuration);
   (3) is the kind of plausible regression a developer could introduce (refactoring slip, off-by-one, wrong variable, dropped special case, changed default, caching, reordered statements, too-narrow/too-broad condition), not sabotage that ordinary use exposes at once. Prefer changes that need something specific to manifest: a particular combination of input shapes, a multi-step sequence of operations, an unusual but legitimate input, a particular configuration value, or two cooperating sites that each look fine alone. Each mutant should break the property through a DIFFERENT mechanism / code location. Small diffs (1-15 changed lines) are best.
 
-For each mutant i (1..{n}) write into /tmp/wt_out/{pid}/m<i>/ :
+For each mutant i (1..{n}) write into {OUT}/{pid}/m<i>/ :
   * patch.diff  — `git diff` of the worktree against HEAD for this mutant alone (must apply with `git apply` to a clean checkout);
   * demo.py     — a small self-contained program (may create temp files/dirs; must clean up) that exits with status 1 and prints what went wrong when run against the mutated tree, and exits 0 against the unmodified tree. It should demonstrate the property violation in terms of the property statement (observable behaviour through the project's API/CLI), not by inspecting the source text;
   * notes.md    — 5-10 lines: what was changed, why it breaks the property, what specific input/sequence/configuration is needed for it to manifest, and the exact test-suite summary line you observed with the mutant applied.
-Between mutants restore the worktree with `git -C /tmp/wt/{pid} checkout -- .` (and verify `git -C /tmp/wt/{pid} status --short` is clean). Leave the worktree clean at the end. Verify for every mutant yourself: demo exits 0 on the clean tree, 1 on the mutated tree, and the test suite is unchanged with the mutant.
+Between mutants restore the worktree with `git -C {WT}/{pid} checkout -- .` (and verify `git -C {WT}/{pid} status --short` is clean). Leave the worktree clean at the end. Verify for every mutant yourself: demo exits 0 on the clean tree, 1 on the mutated tree, and the test suite is unchanged with the mutant.
+
+{AVOID}
 
 Finish with a short report listing, per mutant: one-line description, files touched, demo result clean/mutated, test-suite summary line.""")
